@@ -32,6 +32,7 @@ type program struct {
 	src   string
 	lead  string // bytes before the first token
 	spans []span
+	stuck bool // the scanner panicked or did not reach EOF (a defect the oracle reports)
 }
 
 var (
@@ -59,13 +60,20 @@ func loadCorpus() {
 			corpusAll = append(corpusAll, s)
 			corpusSet[s] = true
 		}
-		// classification runs under the watchdog: a parser that panics or
-		// hangs (a defect the oracle reports on real cases) must not take
-		// the harness down during set-up
+		// classification runs under the watchdog: a scanner/parser that
+		// panics or hangs (a defect the oracle reports on real cases) must
+		// not take the harness down during set-up. The first input on which
+		// set-up met such a defect is kept in setupDefect; every test
+		// evaluates it first, so the run ends at once with a proper verdict
+		// instead of crawling along next to a leaked, spinning goroutine.
 		broken := false
 		for _, s := range corpusAll {
 			p := tokenise(s)
 			ok := false
+			if p.stuck && setupDefect == nil {
+				setupDefect = []byte(s)
+				broken = true
+			}
 			if !broken {
 				var o outcome
 				ok, o = guardOnce(func() bool {
@@ -73,6 +81,7 @@ func loadCorpus() {
 					return r.err == nil && r.file != nil
 				}, watchdog)
 				if o.timeout {
+					setupDefect = []byte(s)
 					broken = true
 				}
 			}
@@ -82,17 +91,14 @@ func loadCorpus() {
 				corpusOther = append(corpusOther, p)
 			}
 		}
-		if broken || len(corpusValid) < 500 {
-			// keep the generators going on whatever there is
-			if len(corpusValid) == 0 {
-				corpusValid = corpusOther
-			}
-			if !broken && len(corpusValid) < 500 {
-				fmt.Printf("corpus: only %d of %d snippets parse\n", len(corpusValid), len(corpusAll))
-			}
+		if len(corpusValid) == 0 {
+			corpusValid = corpusOther // keep the generators going on whatever there is
 		}
 	})
 }
+
+// setupDefect: see loadCorpus.
+var setupDefect []byte
 
 func corpusSnippets() []string { loadCorpus(); return corpusAll }
 
@@ -105,7 +111,7 @@ func tokenise(src string) (p *program) {
 	p = &program{src: src}
 	defer func() {
 		if r := recover(); r != nil {
-			p.lead, p.spans = "", []span{{tok: token.Illegal, text: src}}
+			p.lead, p.spans, p.stuck = "", []span{{tok: token.Illegal, text: src}}, true
 		}
 	}()
 	b := []byte(src)
@@ -114,7 +120,11 @@ func tokenise(src string) (p *program) {
 	s := parser.NewScanner(f, b, nil, 0)
 	var toks []token.Token
 	var offs []int
-	for n := 0; n <= 2*len(b)+16; n++ {
+	for n := 0; ; n++ {
+		if n > 2*len(b)+16 {
+			p.lead, p.spans, p.stuck = "", []span{{tok: token.Illegal, text: src}}, true
+			return p
+		}
 		tok, _, pos := s.Scan()
 		if tok == token.EOF {
 			break
